@@ -296,6 +296,102 @@ def check_protocol(fx, R, cq, dim):
             R.undecided('Y4', cname + '::setOriginPoint', (verdict[1] if verdict else 'idiom not recognised: %s' % (so,)))
     # ---- Y4 completeness + Y5 formulas -------------------------------------------
     check_set_end_point(fx, R, cq, cname, dim, fse)
+    check_parameter_aliasing(fx, R, cq, cname)
+
+
+def check_parameter_aliasing(fx, R, cq, cname):
+    """Y6: the caster hands out its stored points by const reference (getOriginPoint(), getEndPoint()), so a point argument of a later call may BE one of those members.  In every public member function, a
+    by-reference point parameter must not be read after a stored point it may alias has been given another value (directly, or by a member function called in between): the result must be that of the two
+    points the caller passed, as a fresh caster would give."""
+    rec = fx.records.get(cq) or {}
+    meths = {}
+    for mth in rec.get('methods', []):
+        for g in fx.fn(mth['q']):
+            if g.get('body') is not None and g.get('sig') == mth.get('sig'):
+                meths[(mth['name'], mth.get('sig'))] = g
+    # members handed out by reference
+    exposed = {}
+    for g in meths.values():
+        rt = g.get('ret') or {}
+        if not (rt.get('ref') or (rt.get('s') or '').rstrip().endswith('&')) or g.get('params'):
+            continue
+        rs = [y for y in walk(g['body']) if y.get('k') == 'Return' and y.get('e') is not None]
+        if len(rs) == 1:
+            e0 = strip_casts(rs[0]['e'])
+            if e0.get('k') == 'Member' and e0.get('field') and e0.get('cls') == cq:
+                exposed[e0['name']] = (g['name'], (e0.get('t') or {}).get('s', '').replace('const ', '').strip())
+
+    def direct_writes(g):
+        """[(member name, index of the parameter it is assigned from or None)] for whole-member stores of g"""
+        out = []
+        pidx = {p_['id']: n_ for n_, p_ in enumerate(g.get('params', []))}
+        for y in walk(g['body']):
+            if (y.get('k') == 'Bin' and y.get('op') == '=') or (y.get('k') == 'Op' and y.get('op') == '=' and len(y.get('args', [])) == 2):
+                l_, r_ = (y['l'], y['r']) if y.get('k') == 'Bin' else (y['args'][0], y['args'][1])
+                l0, r0 = strip_casts(l_), strip_casts(r_)
+                if l0.get('k') == 'Member' and l0.get('field') and l0.get('cls') == cq:
+                    out.append((l0['name'], pidx.get(r0.get('id')) if r0.get('k') == 'Ref' else None))
+        return out
+
+    def call_writes(call, depth=0):
+        """members written by an in-class call, with the ARGUMENT node they are assigned from (when it is a plain copy of a parameter)"""
+        g = fx.functions.get(call.get('fk')) if call.get('fk') else None
+        if g is None or g.get('body') is None or g.get('cls') != cq or depth > 2:
+            return []
+        out = []
+        for (m_, k_) in direct_writes(g):
+            out.append((m_, call['args'][k_] if k_ is not None and k_ < len(call.get('args', [])) else None))
+        for y in walk(g['body']):
+            if y.get('k') == 'MCall' and y.get('inrepo') and y.get('fk') and strip_casts(y.get('obj') or {}).get('k') == 'This':
+                for (m_, a_) in call_writes(y, depth + 1):
+                    # the argument of the inner call is meaningful only if it is a parameter of g passed through
+                    a0 = strip_casts(a_) if a_ is not None else None
+                    k2 = next((n_ for n_, p_ in enumerate(g.get('params', [])) if a0 is not None and a0.get('k') == 'Ref' and a0.get('id') == p_['id']), None)
+                    out.append((m_, call['args'][k2] if k2 is not None and k2 < len(call.get('args', [])) else None))
+        return out
+    n_checked = 0
+    for (name, sig), f in sorted(meths.items()):
+        if f.get('ctor') or (f.get('access') or 0) != 0 or f['body'].get('k') != 'Compound':
+            continue
+        refs = [p_ for p_ in f.get('params', []) if (p_.get('t') or {}).get('ref') and (p_.get('t') or {}).get('const')]
+        if not refs:
+            continue
+        for p_ in refs:
+            ptype = (p_['t'].get('s') or '').replace('const ', '').replace('&', '').strip()
+            cands = {m_ for m_, (acc_, mt_) in exposed.items() if mt_.replace('&', '').strip() == ptype}
+            if not cands:
+                continue
+            n_checked += 1
+            overwritten = {}           # member -> statement that gave it a value that is not this parameter
+            bad = None
+            for stm in f['body']['s']:
+                reads_p = any(y.get('k') == 'Ref' and y.get('id') == p_['id'] for y in walk(stm))
+                if reads_p and overwritten:
+                    m_ = sorted(overwritten)[0]
+                    bad = (m_, overwritten[m_], stm)
+                    break
+                # writes of this statement
+                for y in walk(stm):
+                    if (y.get('k') == 'Bin' and y.get('op') == '=') or (y.get('k') == 'Op' and y.get('op') == '=' and len(y.get('args', [])) == 2):
+                        l_, r_ = (y['l'], y['r']) if y.get('k') == 'Bin' else (y['args'][0], y['args'][1])
+                        l0, r0 = strip_casts(l_), strip_casts(r_)
+                        if l0.get('k') == 'Member' and l0.get('name') in cands and not (r0.get('k') == 'Ref' and r0.get('id') == p_['id']):
+                            overwritten.setdefault(l0['name'], stm)
+                    if y.get('k') == 'MCall' and y.get('inrepo') and strip_casts(y.get('obj') or {}).get('k') == 'This':
+                        for (m_, a_) in call_writes(y):
+                            a0 = strip_casts(a_) if a_ is not None else None
+                            if m_ in cands and not (a0 is not None and a0.get('k') == 'Ref' and a0.get('id') == p_['id']):
+                                overwritten.setdefault(m_, stm)
+            inst = '%s::%s:%s' % (cname, name + ('(%d args)' % len(f['params'])), p_['name'])
+            if bad:
+                R.violated('Y6', '%s::%s:parameter-aliasing:%s' % (cname.split('<')[0], name, p_['name']), '`%s` is taken by const reference and read (in `%s`) after `%s` has given the stored point %s another '
+                           'value; %s() hands that member out by const reference, so a caller passing `caster.%s()` as `%s` - a ray from a new point back to / onwards from the stored one - has its argument '
+                           'changed under it before it is used: the cast is not that of the two points passed (a fresh caster given the same two points answers differently) [%s]' % (
+                               p_['name'], pp(bad[2].get('e') or bad[2])[:70], pp(bad[1].get('e') or bad[1])[:70], bad[0], exposed[bad[0]][0], exposed[bad[0]][0], p_['name'], cname), fx.rel(f['loc']), 'E-STATE')
+            else:
+                R.holds('Y6', inst, 'not read after a stored point it may alias (%s) is given another value' % ', '.join(sorted(cands)), fx.rel(f['loc']), 'E-STATE')
+    if not n_checked:
+        R.undecided('Y6', cname + ':parameter-aliasing', 'no by-reference point parameter / no stored point handed out by reference found')
 
 
 def check_dominates(fx, R, inst, f, must, then, what, why):
@@ -318,6 +414,16 @@ def check_dominates(fx, R, inst, f, must, then, what, why):
                 seq.append(('decl', v['name'], deep_unwrap(sx(v['init'])) if v.get('init') is not None else None))
         else:
             seq.append((x['k'],))
+    # local copies of a parameter made in front of the calls (`const PointType end = endPoint;`) stand for that parameter
+    copies = {s_[1]: s_[2] for s_ in seq if isinstance(s_, tuple) and s_[0] == 'decl' and isinstance(s_[2], str)}
+    if copies:
+        def ren(t):
+            if isinstance(t, str):
+                return copies.get(t, t)
+            if isinstance(t, tuple):
+                return tuple(ren(y_) for y_ in t)
+            return t
+        seq = [ren(s_) for s_ in seq if not (isinstance(s_, tuple) and s_[0] == 'decl' and s_[1] in copies)]
     ok = seq == must + [('return', then)]
     if ok:
         R.holds('Y4', inst, '%s dominates the traversal' % what, fx.rel(f['loc']), 'E-STATE')
